@@ -125,6 +125,8 @@ _DSAT_INNER = ["andor(pk(A),pk(B),pkh(C))", "and_b(pk(A),a:pkh(B))", "or_b(pk(A)
                "c:or_i(pk_k(A),pk_h(B))", "andor(pkh(A),pk(B),multi(1,C,F))", "or_i(and_v(v:pkh(A),pk(B)),0)", "and_b(pkh(A),a:andor(pk(B),pkh(C),pk(F)))"]
 CORPUS += [outer.format(X=x) for x in _DSAT_INNER for outer in ("or_d({X},pk(D))", "or_b({X},s:pk(D))", "andor({X},pk(E),pk(D))", "thresh(1,{X},s:pk(D))")]
 # sugar (and_n, pk, pkh, t: l: u:) directly under a wrapper: written back with the wrapper's colon in place
+CORPUS += ["and_v(v:pk(A),after(499999999))", "and_v(v:pk(A),after(500000000))", "and_v(v:pk(A),after(500000001))", "and_v(v:pk(A),after(2147483647))", "and_v(v:pk(A),older(65535))",
+           "and_v(v:pk(A),older(4194304))", "and_v(v:pk(A),older(4259839))", "and_v(v:pk(A),older(1))"]
 CORPUS += ["or_b(pk(A),a:and_n(pk(B),older(144)))", "thresh(1,pk(A),a:and_n(pk(B),pk(C)))", "and_b(pk(A),a:and_n(pk(B),pk(C)))", "or_d(pk(A),n:and_n(pk(B),pk(C)))", "and_v(v:and_n(pk(A),pk(B)),pk(C))",
            "or_b(pk(A),au:and_v(v:pk(B),pk(C)))", "thresh(2,pk(A),s:pk(B),a:and_n(pk(C),pk(D)))", "and_v(vn:and_n(pk(A),older(9)),pk(B))"]
 
@@ -249,7 +251,7 @@ def record(run: Run, rnd: random.Random, thorough: bool, evs: list[dict[str, Any
                 pivots += [(2, 0, n_), (2, 0, max(n_ - 1, 0)), (2, 0, n_ | 0x10000), (2, 0, max(n_ - 1, 0) | 0x10000), (2, 0, (n_ & 0xFFFF) | 0x20000 | (n_ & 0x400000)), (2, 0, n_ ^ 0x400000),
                            (2, 0, n_ | 0x80000000), (1, 0, n_), (2, 0, 0x40FFFF), (2, 0, 0xFFFF)]
             else:
-                pivots += [(2, n_, 0), (2, max(n_ - 1, 0), 0), (2, n_, 0xFFFFFFFF), (2, n_ + 500_000_000 if n_ < 500_000_000 else n_ - 500_000_000, 0), (2, 499_999_999, 0), (2, 500_000_000, 0)]
+                pivots += [(2, n_, 0), (2, max(n_ - 1, 0), 0), (2, n_ + 1, 0), (2, min(n_ + 1_000_000, 0xFFFFFFFF), 0), (2, n_, 0xFFFFFFFF), (2, n_ + 500_000_000 if n_ < 500_000_000 else n_ - 500_000_000, 0), (2, 499_999_999, 0), (2, 500_000_000, 0)]
         must = [(ks, True, lc) for lc in dict.fromkeys(pivots)]
         for sub, have_pre, (ver, lt, seq) in (must + scen if thorough else must[: 12] + rnd.sample(scen, min(len(scen), 10))):
             tx = Tx(ver, lt, [TxIn(OutPoint(bytes([7]) * 32, 1), b"", seq)], [TxOut(90_000, ScriptPubKey(bytes.fromhex("0014" + "42" * 20), check_validity=False))], check_validity=False)
